@@ -554,3 +554,56 @@ def gen_tokenizer_arms():
            "def scanArmOrder : List String := [" + ", ".join('"%s"' % o.replace("\\", "\\\\").replace('"', '\\"') for o in order) + "]", "",
            "end Generated", ""]
     return "\n".join(out)
+
+
+def gen_parser_steps():
+    """parser.rs: for each of the 36 packrat functions the sequence of steps in textual order —
+    alt X (try_return! of parse_x), eval X (try_eval! of parse_x), call X (plain call of parse_x), tok0/tok1 T (consume_token_k!),
+    exp0/exp1 T (expect_token_k!) — and the variant(s) built"""
+    src = strip_hooks(strip_comments(strip_tests(read("src/parser.rs"))))
+    fns = re.findall(r"\bfn\s+(parse_\w+)\s*<", src)
+    rows = []
+    for fn in fns:
+        body = fn_body(src, fn)
+        ev = []
+        pat = re.compile(r"\b(try_return|try_eval|consume_token_0|consume_token_1|expect_token_0|expect_token_1)!\s*\(|\b(parse_\w+)\s*\(\s*cache\s*,\s*tokens\s*,|\bvariant\s*:\s*Variant::(\w+)")
+        i = 0
+        while True:
+            m = pat.search(body, i)
+            if not m: break
+            if m.group(1):
+                depth, j = 0, m.end() - 1
+                while True:
+                    if body[j] == "(": depth += 1
+                    elif body[j] == ")":
+                        depth -= 1
+                        if depth == 0: break
+                    j += 1
+                inner = body[m.end():j]
+                args = [re.sub(r"\s+", " ", a).strip() for a in split_top(inner, ",") if a.strip()]
+                mac = m.group(1)
+                if mac in ("try_return", "try_eval"):
+                    c = re.match(r"(parse_\w+)\s*\(", args[2]) if len(args) >= 3 else None
+                    if not c: fail(f"arms: parser/{fn}: unreadable {mac}!({inner[:60]})")
+                    ev.append(("alt" if mac == "try_return" else "eval", c.group(1)))
+                else:
+                    # (cache, cache_key, tokens, next, Variant, expectation[, ...])
+                    tokpos = 4 if mac.startswith("consume") else 3
+                    if len(args) <= tokpos or not re.fullmatch(r"[A-Z]\w*(\(.*\))?", args[tokpos].replace(" ", "")): fail(f"arms: parser/{fn}: unreadable {mac}!")
+                    ev.append(({"consume_token_0": "tok0", "consume_token_1": "tok1", "expect_token_0": "exp0", "expect_token_1": "exp1"}[mac], args[tokpos].replace(" ", "")))
+                i = j + 1
+            elif m.group(2):
+                ev.append(("call", m.group(2)))
+                i = m.end()
+            else:
+                ev.append(("build", m.group(3)))
+                i = m.end()
+        rows.append((fn, ev))
+    if len(rows) != 36: fail(f"arms: parser: {len(rows)} parse functions")
+    out = ["/-! GENERATED by extract/arms.py from /repo/src/parser.rs — do not edit. -/", "", "namespace Generated", "",
+           "/-- the steps of each packrat function in textual order: `alt f` = `try_return!(.. f ..)`, `eval f` = `try_eval!(.. f ..)`, `call f` = a plain",
+           "call, `tok0/tok1 T` = `consume_token_k!(.. T ..)`, `exp0/exp1 T` = `expect_token_k!(.. T ..)`, `build V` = a node `Variant::V` is built -/",
+           "def parserSteps : List (String × List (String × String)) := ["]
+    out.append(",\n".join('  ("%s", [%s])' % (fn, ", ".join(f'("{a}", "{b}")' for a, b in ev)) for fn, ev in rows))
+    out += ["]", "", "end Generated", ""]
+    return "\n".join(out)
